@@ -6,7 +6,7 @@ use crate::sweep::{sweep, Case, SweepCfg};
 use serde_json::json;
 
 pub fn run(ctx: &Ctx) -> Outcome {
-    let sp = spaces::unrestricted(ctx.tier, ctx.seed ^ 9, 4, 4, 3_000, 60_000);
+    let sp = spaces::unrestricted(ctx.tier, ctx.seed ^ 9, 4, 4, 8_000, 80_000);
     let mut patterns = sp.patterns;
     // \G / \K variants of the small trees: the skipped-empty-match flag matters only for them
     let small: Vec<_> = patterns.iter().filter(|p| p.size() <= 3).cloned().collect();
